@@ -239,15 +239,9 @@ class Effects:
         r = self.root_of(it, roots, fi)
         if r is None:
             return None
-        # iterating a dict-like yields keys (strings): only lists / arrays of objects alias.  Use the type table to tell.
-        t = self.T.type_at(it, fi, it)
-        if t is not None and t[0] == "C" and is_inst(t[1]):
-            # containers typed by the attribute table may be dicts (odict iterates keys) - look at how the repo uses them:
-            # lists are built with append; dicts with subscript stores.  The loader cannot tell, so require an instance element use.
-            return (r[0], "self")
-        if t is not None and t[0] == "C":
-            return (r[0], "self")
-        return None
+        # Elements of a container that is part of the parameter's object graph are part of it too.  (If the container is a dict the loop
+        # variable is a key - an immutable string/tuple - through which nothing can be mutated, so treating it as rooted is harmless.)
+        return (r[0], "self")
 
     def _arg_for(self, callee, call, pname):
         """Argument expression of ``call`` bound to callee parameter ``pname`` (None if not determinable)."""
